@@ -21,7 +21,7 @@ Definition far_ok (m : segs) : Prop :=
     readRawPointer s paddr = Ok raw -> raw <> 0 -> val <> 0.
 
 Definition all_fixed (fx : efix) : Prop :=
-  fx_bitlist fx = true /\ fx_depth (fx_rd fx) = true /\ fx_upgrade (fx_rd fx) = true /\ fx_bit (fx_rd fx) = true.
+  fx_bitlist fx = true /\ fx_farnull fx = true /\ fx_depth (fx_rd fx) = true /\ fx_upgrade (fx_rd fx) = true /\ fx_bit (fx_rd fx) = true.
 
 (* [T1] whenever Equal returns (b, nil), b is the documented equality of the two values *)
 Definition equal_m_correct_statement : Prop :=
@@ -150,15 +150,15 @@ Definition eq_res (r : eout * Z * Z) : eout := fst (fst r).
 (* as found: bit lists that differ are Equal, and a bit list is Equal to a void list of the
    same length, against the documented equality of the walked trees *)
 Example equal_prefix_refuted :
-  eq_res (run_equal 20 cfg0 cfg0 (mkEFix false rdfix) (msg_bits 5) [] (msg_bits 2) [] false SelRoot SelRoot) = EOk true
+  eq_res (run_equal 20 cfg0 cfg0 (mkEFix false false rdfix) (msg_bits 5) [] (msg_bits 2) [] false SelRoot SelRoot) = EOk true
   /\ fst (fst (spec_equal 20 cfg0 cfg0 rdfix (msg_bits 5) [] (msg_bits 2) [] false SelRoot SelRoot 1024 64)) = Some false
-  /\ eq_res (run_equal 20 cfg0 cfg0 (mkEFix false rdfix) (msg_bits 5) [] msg_void [] false SelRoot SelRoot) = EOk true
+  /\ eq_res (run_equal 20 cfg0 cfg0 (mkEFix false false rdfix) (msg_bits 5) [] msg_void [] false SelRoot SelRoot) = EOk true
   /\ fst (fst (spec_equal 20 cfg0 cfg0 rdfix (msg_bits 5) [] msg_void [] false SelRoot SelRoot 1024 64)) = Some false.
 Proof. vm_compute. repeat split. Qed.
 
 (* repaired: the same inputs are unequal; equal bits with different padding are Equal *)
 Example equal_fixed_witness :
-  eq_res (run_equal 20 cfg0 cfg0 (mkEFix true rdfix) (msg_bits 5) [] (msg_bits 2) [] false SelRoot SelRoot) = EOk false
-  /\ eq_res (run_equal 20 cfg0 cfg0 (mkEFix true rdfix) (msg_bits 5) [] msg_void [] false SelRoot SelRoot) = EOk false
-  /\ eq_res (run_equal 20 cfg0 cfg0 (mkEFix true rdfix) (msg_bits 5) [] (msg_bits (5 + 128)) [] false SelRoot SelRoot) = EOk true.
+  eq_res (run_equal 20 cfg0 cfg0 (mkEFix true true rdfix) (msg_bits 5) [] (msg_bits 2) [] false SelRoot SelRoot) = EOk false
+  /\ eq_res (run_equal 20 cfg0 cfg0 (mkEFix true true rdfix) (msg_bits 5) [] msg_void [] false SelRoot SelRoot) = EOk false
+  /\ eq_res (run_equal 20 cfg0 cfg0 (mkEFix true true rdfix) (msg_bits 5) [] (msg_bits (5 + 128)) [] false SelRoot SelRoot) = EOk true.
 Proof. vm_compute. repeat split. Qed.
